@@ -229,6 +229,9 @@ def generate(rng, hostile=False, regimes=("lf", "crlf", "cr", "mixed"), max_file
     lay.cfg_glob = (not legacy) and rng.random() < 0.12
     lay.cfg_crlf = rng.random() < 0.15
     lay.unconfigured = {"NOTES.txt": "notes about %s\n" % old, ".hidden": old + "\r\n", "src/other.py": "# %s\n" % old}
+    # ... and files that stand next to configured ones under the names a careless writer might use for its scratch copies
+    for q, name in enumerate(sorted(lay.files)[:2]):
+        lay.unconfigured[name + [".tmp", ".bak"][q]] = "not a scratch file: %s\n" % old
     return lay
 
 
